@@ -223,6 +223,25 @@ def case_subset(ctx, case, be=None):
                         break
         ctx.oracle(set(pm) == want, f'subset(prevent_fragments): got {sorted(pm)}, smallest connected superset is {sorted(want)} [{be}]', case)
         ctx.count('subset_pf', 1)
+        # Lean side: the model of `connected_subgraph` (Model/ConnSub.lean) is proved to compute the smallest
+        # connected superset (Props/C10: connSub_superset / connSub_connected / connSub_minimal), so a kept node
+        # set that differs from it is a failing input for the property.  `BAD-OP` = command not linked yet.
+        try:
+            wire, ks = G.wire_neuron(x), ','.join(map(str, keep))
+            ans = ctx.ask(f"cs.connsub {ks} | {wire}")
+            if ans != 'BAD-OP':
+                ctx.count('subset_pf_lean', 'connsub')
+                same = ctx.defn(','.join(map(str, sorted(pm))), ans.split('#')[0].strip(),
+                                f'subset(prevent_fragments): kept node set vs Lean connectedSubgraph [{be}]', case)
+                # the kept set has one top node per tree, so the roots of the result are determined by it
+                tops = sorted(i for i in pm if pm0[i] not in pm)
+                if same and len(tops) == len({root_of(pm0, i) for i in pm}):
+                    topo = ctx.ask(f"cs.subsetpf {ks} | {wire}")
+                    if topo != 'BAD-OP':
+                        ctx.count('subset_pf_lean', 'subsetpf')
+                        ctx.defn(G.topo_neuron(y), topo, f'subset(prevent_fragments): node table vs Lean subsetPF [{be}]', case)
+        except (ValueError, KeyError, IndexError):
+            pass
     ctx.oracle(coords_of(y) == {i: v for i, v in coords_of(x).items() if i in pm}, f'subset changed coordinates of kept nodes [{be}]', case)
     if x.has_connectors:
         want = sorted(x.connectors[x.connectors.node_id.isin(list(pm))].connector_id.tolist())
